@@ -353,7 +353,7 @@ package leader
 //@   on call time.After as a assert C17.waits_computed_backoff: a.d == lastBackoff
 //@   on recv time.After set waitedSinceCall = true
 //@   on recv ctx.Done set sawCancel = true
-//@   loop 0 invariant C17.retry_count: attempt == ncalls && ncalls >= 0 && !lastNil && !lastPerm && !sawCancel && (ncalls == 0 || waitedSinceCall)
+//@   loop 0 invariant C17.retry_count: $v == ncalls && ncalls >= 0 && !lastNil && !lastPerm && !sawCancel && (ncalls == 0 || waitedSinceCall)
 //@   loop 0 invariant C17.retry_bound: cfg.MaxAttempts > 0 ==> ncalls < cfg.MaxAttempts || ncalls == 0
 //@   ensures C17.success_returns_nil: lastNil ==> result == nil
 
@@ -406,7 +406,7 @@ package leader
 //@   on ret attemptAcquire set waitedSince = false
 //@   on call CalculateBackoff as c assert C17.round_backoff_config: c.cfg.InitialBackoff == 50000000 && c.cfg.MaxBackoff == 5000000000 && c.cfg.BackoffMultiplier == 2.0 && c.cfg.Jitter == 0.1 && c.attempt == attempts - 1
 //@   on ret CalculateBackoff as c set lastBackoff = c.result
-//@   loop 0 invariant C17.round_shape: 0 <= retry && retry <= 4 && attempts == retry && jitterWaited && jitterArmed && (attempts == 0 || waitedSince)
+//@   loop 0 invariant C17.round_shape: 0 <= $v && $v <= 4 && attempts == $v && jitterWaited && jitterArmed && (attempts == 0 || waitedSince)
 
 //@ func (e *kvElection) attemptAcquire()
 //@   tags C01 C05 C10 C02 C13
@@ -636,7 +636,7 @@ package leader
 //@   on call handleHeartbeatFailure as c set hbfCalled = true
 //@   on call handleHeartbeatFailure as c set heartbeat_failed = failed && c.err != nil
 //@   on call handleHeartbeatFailure as c assert C07.demotes_only_on_real_failure: failed && classified && (isPerm || cfail >= 3)
-//@   loop 0 invariant C03.fail_count: 0 <= consecutiveFailures && consecutiveFailures <= 2 && consecutiveFailures == cfail
+//@   loop 0 invariant C03.fail_count: 0 <= $v && $v <= 2 && $v == cfail
 //@   loop 0 invariant C03.no_pending_demotion: (failed ==> classified) && !(classified && isPerm) && !hbfCalled
 //@   loop 0 invariant C12.count_is_streak: e.healthFailureCount == streak && 0 <= streak && streak < MaxHealth(e.cfg)
 //@   on return assert C03.demotion_on_exit: classified && (isPerm || cfail >= 3) ==> hbfCalled
@@ -690,7 +690,7 @@ package leader
 //@   on ret validateToken as r set vfail = r.result1 != nil ? vfail + 1 : (r.result0 ? 0 : vfail)
 //@   on call handleValidationFailure set validation_failed = ran && (lastErr != nil || !lastValid)
 //@   on call handleValidationFailure set hvfCalled = true
-//@   loop 0 invariant C04.validation_fail_count: 0 <= consecutiveFailures && consecutiveFailures <= 1 && consecutiveFailures == vfail
+//@   loop 0 invariant C04.validation_fail_count: 0 <= $v && $v <= 1 && $v == vfail
 //@   loop 0 invariant C04.no_pending_demotion: !hvfCalled && (ran ==> (lastErr != nil || lastValid))
 //@   on backedge 0 assert C04.invalid_demotes_now: ran ==> (lastErr != nil || lastValid)
 //@   on return assert C04.loop_demotes: ran && ((lastErr == nil && !lastValid) || vfail >= 2) ==> hvfCalled
